@@ -873,7 +873,7 @@ impl TypedScenario for C01E2E {
     fn budget(&self, tier: Tier) -> usize {
         match tier {
             Tier::Quick => 3000,
-            Tier::Thorough => 150_000,
+            Tier::Thorough => 750_000,
         }
     }
     fn generate(&self, seed: u64, _index: usize, tier: Tier) -> Plan {
@@ -1022,7 +1022,7 @@ impl TypedScenario for C01Raw {
     fn budget(&self, tier: Tier) -> usize {
         match tier {
             Tier::Quick => 2000,
-            Tier::Thorough => 150_000,
+            Tier::Thorough => 750_000,
         }
     }
     fn generate(&self, seed: u64, index: usize, _tier: Tier) -> RawPlan {
